@@ -6,6 +6,7 @@ pub fn dispatch(req: &Value) -> Value {
         "inflection" => inflection(req),
         "absolute" => absolute(req),
         "import_path" => import_path(req),
+        "export_history" => export_history(req),
         other => json!({"error": format!("unknown op {other}")}),
     }
 }
@@ -98,4 +99,63 @@ fn import_path(req: &Value) -> Value {
         Ok(Err(e)) => json!({"actual_err": e, "expected_file": format!("{:?}", want), "agree": want.is_none() || norm(&cwd.join(&from)).is_none()}),
         Err(p) => json!({"panic": p, "agree": false}),
     }
+}
+
+// ---------------------------------------------------------------------------------------------------------
+// C06 / C05 / C17: export histories on real derived types (fresh process per history: the registry is global)
+mod hist {
+    use ts_rs::TS;
+    #[derive(TS)]
+    #[ts(export_to = "shared.ts")]
+    /// Doc of A
+    pub struct A { pub x: i32 }
+    #[derive(TS)]
+    #[ts(export_to = "shared.ts")]
+    pub struct B { pub y: String }
+    #[derive(TS)]
+    pub struct C { pub a: A, pub b: Option<B> }
+    #[derive(TS)]
+    #[ts(export_to = "nested/dir/")]
+    pub struct D { pub c: C }
+}
+
+fn export_step(kind: &str, ty: &str, dir: Option<&str>) -> Result<(), String> {
+    use ts_rs::TS;
+    macro_rules! go { ($t:ty) => { match kind {
+        "export" => <$t>::export(),
+        "export_all" => <$t>::export_all(),
+        "export_all_to" => <$t>::export_all_to(dir.unwrap()),
+        _ => panic!("unknown step kind"),
+    } } }
+    let r = match ty { "A" => go!(hist::A), "B" => go!(hist::B), "C" => go!(hist::C), "D" => go!(hist::D), _ => panic!("unknown type") };
+    r.map_err(|e| format!("{e:?}"))
+}
+
+fn read_tree(root: &Path, rel: &Path, out: &mut std::collections::BTreeMap<String, String>) {
+    if let Ok(rd) = std::fs::read_dir(root.join(rel)) {
+        for e in rd.flatten() {
+            let p = rel.join(e.file_name());
+            if e.path().is_dir() { read_tree(root, &p, out); }
+            else { out.insert(p.to_string_lossy().into_owned(), std::fs::read_to_string(e.path()).unwrap_or_default()); }
+        }
+    }
+}
+
+/// {"op":"export_history","root":DIR (created, becomes cwd),"env_dir":optional TS_RS_EXPORT_DIR,"steps":[[kind,type,dir?],...],"collect":DIR}
+pub fn export_history(req: &Value) -> Value {
+    let root = PathBuf::from(req["root"].as_str().unwrap());
+    std::fs::create_dir_all(&root).unwrap();
+    std::env::set_current_dir(&root).unwrap();
+    match req["env_dir"].as_str() { Some(d) => std::env::set_var("TS_RS_EXPORT_DIR", d), None => std::env::remove_var("TS_RS_EXPORT_DIR") }
+    let mut results = vec![];
+    for st in req["steps"].as_array().unwrap() {
+        let kind = st[0].as_str().unwrap().to_string();
+        let ty = st[1].as_str().unwrap().to_string();
+        let dir = st.get(2).and_then(|d| d.as_str()).map(|s| s.to_string());
+        let r = catch(move || export_step(&kind, &ty, dir.as_deref()));
+        results.push(match r { Ok(Ok(())) => json!("ok"), Ok(Err(e)) => json!({"err": e}), Err(p) => json!({"panic": p}) });
+    }
+    let mut files = std::collections::BTreeMap::new();
+    read_tree(&root, Path::new(req["collect"].as_str().unwrap_or(".")), &mut files);
+    json!({"results": results, "files": files})
 }
